@@ -155,6 +155,7 @@ type zzwNext struct {
 	rawQuery string
 	subdomGw string
 	dnslink  string
+	gwHost   string
 }
 
 func (n *zzwNext) ServeHTTP(w http.ResponseWriter, r *http.Request) {
@@ -163,6 +164,7 @@ func (n *zzwNext) ServeHTTP(w http.ResponseWriter, r *http.Request) {
 	n.rawQuery = r.URL.RawQuery
 	n.subdomGw, _ = r.Context().Value(SubdomainHostnameKey).(string)
 	n.dnslink, _ = r.Context().Value(DNSLinkHostnameKey).(string)
+	n.gwHost, _ = r.Context().Value(GatewayHostnameKey).(string)
 	w.WriteHeader(200)
 }
 
@@ -467,5 +469,381 @@ func HarnessC32HostToPath() {
 	}
 	verifrt.Observe("code", w.code)
 	verifrt.Observe("nextPath", next.path)
+	verifrt.Reach("end")
+}
+
+// ---------------------------------------------------------------------------------------------------
+// DNSLink names with symbolic bytes and a symbolic set of DNSLink records.
+// ---------------------------------------------------------------------------------------------------
+
+// zzwRecBackend answers DNSLink lookups from a list of (name, has-record) pairs; names and flags may be symbolic.
+type zzwRecBackend struct {
+	IPFSBackend
+	names []string
+	recs  []bool
+}
+
+func (b *zzwRecBackend) GetDNSLinkRecord(ctx context.Context, name string) (path.Path, error) {
+	for i, n := range b.names {
+		if n == name {
+			if b.recs[i] {
+				return nil, nil
+			}
+			break
+		}
+	}
+	return nil, errors.New("no DNSLink record")
+}
+
+// zzwSymName: a valid DNS name of lo..hi bytes over {a, y, '-', '.'} (no byte that starts a multibase or
+// base58 peer-ID spelling, so the name is never a CID or peer ID).
+func zzwSymName(tag string, lo, hi int) []byte {
+	n := verifrt.NondetRange(tag+"Len", lo, hi)
+	p := verifrt.NondetBytes(tag, n)
+	for i := range p {
+		verifrt.Assume(verifrt.OneOf(p[i], "ay-."))
+	}
+	verifrt.Assume(zzwValidDNSName(p))
+	return p
+}
+
+// zzwRefUninline / zzwRefInline: the label encoding as the subdomain gateway specification words it
+// ("--" stands for '-', a single '-' stands for '.'), written independently of hostname.go.
+func zzwRefUninline(label []byte) string {
+	var out []byte
+	for i := 0; i < len(label); i++ {
+		switch {
+		case label[i] != '-':
+			out = append(out, label[i])
+		case i+1 < len(label) && label[i+1] == '-':
+			out = append(out, '-')
+			i++
+		default:
+			out = append(out, '.')
+		}
+	}
+	return string(out)
+}
+
+func zzwRefInline(fqdn []byte) string {
+	var out []byte
+	for _, c := range fqdn {
+		switch c {
+		case '-':
+			out = append(out, '-', '-')
+		case '.':
+			out = append(out, '-')
+		default:
+			out = append(out, c)
+		}
+	}
+	return string(out)
+}
+
+func zzwHas(p []byte, c byte) bool {
+	for _, x := range p {
+		if x == c {
+			return true
+		}
+	}
+	return false
+}
+
+// HarnessC32DNSLinkNames: /ipns/<name> for a symbolic valid DNS name (single labels with and without hyphens,
+// double hyphens, dotted names) against a subdomain gateway, with the set of names that have a DNSLink record
+// as an input: the name itself yes/no x its other spelling yes/no (other spelling = the un-inlined reading of a
+// hyphenated single label, or the inlined label of a dotted name). Either the path request (followed through the
+// 301 to the subdomain host) or the subdomain host directly. The content path the wrapped handler finally sees
+// must name the DNSLink name of the request:
+//   - a dotted name or a label without hyphen stands for itself, whatever records exist;
+//   - a hyphenated single label stands for itself or for its un-inlined reading; when exactly one of the two has
+//     a record, for that one.
+func HarnessC32DNSLinkNames() {
+	p := zzwSymName("name", verifrt.Param("D0", 1), verifrt.Param("D", 5))
+	name := string(p)
+	dotted := zzwHas(p, '.')
+	hyph := zzwHas(p, '-')
+	recSelf := verifrt.NondetBool("recSelf")
+	recOther := verifrt.NondetBool("recOther")
+	other := ""
+	switch {
+	case dotted:
+		other = zzwRefInline(p)
+	case hyph:
+		other = zzwRefUninline(p)
+	}
+	verifrt.Observe("name", name)
+	verifrt.Observe("other", other)
+	backend := &zzwRecBackend{names: []string{name}, recs: []bool{recSelf}}
+	if other != "" {
+		backend.names = append(backend.names, other)
+		backend.recs = append(backend.recs, recOther)
+	}
+	// a label with a double hyphen (a--y): its un-inlined reading (a-y) is again a hyphenated single label, whose own
+	// un-inlined reading (a.y) is a third name. Param T3=1 makes "the third name has a record" an input as well.
+	recThird := false
+	if verifrt.Param("T3", 0) == 1 && !dotted && hyph && !strings.Contains(other, ".") && strings.Contains(other, "-") {
+		recThird = verifrt.NondetBool("recThird")
+		backend.names = append(backend.names, zzwRefUninline([]byte(other)))
+		backend.recs = append(backend.recs, recThird)
+	}
+	inline := verifrt.NondetRange("inline", 0, 1) == 1
+	https := verifrt.NondetRange("https", 0, 1) == 1
+	direct := verifrt.NondetRange("direct", 0, 1) == 1
+	const remainder, query = "/p/q r", "k=v&x"
+
+	c := Config{PublicGateways: map[string]*PublicGateway{
+		"dweb.link": {Paths: []string{"/ipfs", "/ipns"}, UseSubdomains: true, InlineDNSLink: inline},
+	}}
+	next := &zzwNext{}
+	h := NewHostnameHandler(c, backend, next)
+
+	host2, path2, query2 := name+".ipns.dweb.link", remainder, query
+	if !direct {
+		w1 := &zzwRW{h: http.Header{}}
+		h(w1, zzwRequest("dweb.link", "/ipns/"+name+remainder, query, https))
+		verifrt.Observe("code1", w1.code)
+		loc := headerGetExact(w1.h, "Location")
+		verifrt.Observe("location", loc)
+		verifrt.Assert("C32.dnslink-path-request-redirected-or-served",
+			(w1.code == http.StatusMovedPermanently && next.calls == 0 && loc != "") || (w1.code == 200 && next.calls == 1))
+		if w1.code == http.StatusMovedPermanently && loc != "" {
+			u, err := url.Parse(loc)
+			verifrt.Assert("C32.location-parses", err == nil)
+			if err != nil {
+				verifrt.Reach("end")
+				return
+			}
+			suffix := ".ipns.dweb.link"
+			verifrt.Assert("C32.location-host-is-root.ns.gateway", strings.HasSuffix(u.Host, suffix) && len(u.Host) > len(suffix))
+			for _, l := range strings.Split(u.Host, ".") {
+				verifrt.Assert("C32.every-label-fits-63", len(l) >= 1 && len(l) <= 63)
+			}
+			verifrt.Assert("C32.redirect-preserves-query", u.RawQuery == query)
+			host2, path2, query2 = u.Host, u.Path, u.RawQuery
+		} else {
+			host2 = ""
+		}
+	}
+	if host2 != "" {
+		w2 := &zzwRW{h: http.Header{}}
+		h(w2, zzwRequest(host2, path2, query2, https))
+		verifrt.Observe("code2", w2.code)
+		verifrt.Assert("C32.subdomain-request-reaches-handler", next.calls == 1 && w2.code == 200)
+		if next.calls == 1 {
+			verifrt.Assert("C32.subdomain-context-names-gateway", next.subdomGw == "dweb.link")
+		}
+	}
+	if next.calls != 1 {
+		verifrt.Reach("end")
+		return
+	}
+	got := next.path
+	verifrt.Observe("path2", got)
+	verifrt.Assert("C32.rewritten-path-keeps-namespace", strings.HasPrefix(got, "/ipns/"))
+	if !strings.HasPrefix(got, "/ipns/") {
+		verifrt.Reach("end")
+		return
+	}
+	gotRoot, gotRem, _ := strings.Cut(got[len("/ipns/"):], "/")
+	if dotted || !hyph {
+		verifrt.Assert("C32.dnslink-name-stands-for-itself", gotRoot == name)
+	} else {
+		isSelf, isOther := gotRoot == name, gotRoot == other
+		if recThird {
+			verifrt.Assert("C32.hyphenated-label-keeps-a-reading-when-third-name-has-record", isSelf || isOther)
+		} else {
+			verifrt.Assert("C32.hyphenated-label-keeps-a-reading", isSelf || isOther)
+		}
+		if recSelf && !recOther {
+			verifrt.Assert("C32.hyphenated-label-with-own-record-kept", isSelf)
+		}
+		if recOther && !recSelf {
+			verifrt.Assert("C32.inlined-label-maps-to-fqdn-with-record", isOther)
+		}
+	}
+	verifrt.Assert("C32.rewritten-path-keeps-remainder", "/"+gotRem == remainder)
+	verifrt.Assert("C32.rewritten-request-keeps-query", next.rawQuery == query)
+	verifrt.Reach("end")
+}
+
+// ---------------------------------------------------------------------------------------------------
+// Host / X-Forwarded-Host: the effective host decides, in every branch of the handler.
+// ---------------------------------------------------------------------------------------------------
+
+// zzwCheckSubdomainOutcome: a subdomain request for sample s on gateway host gwHost (with its port, if any) was either redirected to a canonical label of the
+// same content or served with a content path of the same content; remainder and query kept.
+func zzwCheckSubdomainOutcome(s zzwSample, gwHost string, w *zzwRW, next *zzwNext, rest, query string) {
+	loc := headerGetExact(w.h, "Location")
+	verifrt.Observe("location", loc)
+	verifrt.Assert("C32.subdomain-request-redirected-or-served", (w.code == http.StatusMovedPermanently && next.calls == 0) || (w.code == 200 && next.calls == 1))
+	if w.code == http.StatusMovedPermanently {
+		u, err := url.Parse(loc)
+		if err != nil {
+			verifrt.Assert("C32.location-parses", false)
+			return
+		}
+		suffix := "." + s.ns + "." + gwHost
+		verifrt.Assert("C32.location-host-is-root.ns.gateway", strings.HasSuffix(u.Host, suffix))
+		root := strings.TrimSuffix(u.Host, suffix)
+		verifrt.Assert("C32.every-label-fits-63", len(root) >= 1 && len(root) <= 63 && !strings.Contains(root, "."))
+		if s.kind == zzwKindDNSLink {
+			verifrt.Assert("C32.redirect-root-names-same-content", root == s.fqdn || UninlineDNSLink(root) == s.fqdn)
+		} else {
+			verifrt.Assert("C32.redirect-root-names-same-content", zzwSameRoot(s, root))
+		}
+		verifrt.Assert("C32.redirect-keeps-remainder", u.Path == "/"+rest)
+		verifrt.Assert("C32.redirect-preserves-query", u.RawQuery == query)
+	} else if next.calls == 1 {
+		verifrt.Assert("C32.subdomain-context-names-gateway", next.subdomGw == gwHost || next.subdomGw == "dweb.link")
+		prefix := "/" + s.ns + "/"
+		verifrt.Assert("C32.rewritten-path-keeps-namespace", strings.HasPrefix(next.path, prefix))
+		if strings.HasPrefix(next.path, prefix) {
+			gotRoot, gotRem, _ := strings.Cut(next.path[len(prefix):], "/")
+			verifrt.Assert("C32.rewritten-path-names-same-content", zzwSameRoot(s, gotRoot))
+			verifrt.Assert("C32.rewritten-path-keeps-remainder", gotRem == rest)
+			verifrt.Assert("C32.rewritten-request-keeps-query", next.rawQuery == query)
+			verifrt.Assert("C32.served-label-fits-63", len(gotRoot) <= 63)
+		}
+	}
+}
+
+// HarnessC32ForwardedHost: the host a client asked for is X-Forwarded-Host when a reverse proxy supplies it,
+// otherwise Host. Input: the branch of the handler the effective host selects (wildcard DNSLink host with symbolic
+// name bytes / configured gateway host outside its Paths / subdomain host / path request on the subdomain gateway /
+// path request on a path gateway), X-Forwarded-Host absent / equal to
+// Host / present with Host naming something else (another symbolic DNS name, the subdomain gateway itself, or a
+// subdomain host of other content), an optional port on either, and a DNSLink record yes/no for the effective
+// host and for the other name. The content path handed on names the effective host's content and agrees with
+// DNSLinkHostnameKey.
+func HarnessC32ForwardedHost() {
+	branch := verifrt.NondetRange("branch", 0, 4)
+	mode := verifrt.NondetRange("xfh", 0, 2)
+	recE := verifrt.NondetBool("recEffective")
+	recO := verifrt.NondetBool("recOther")
+	remainder, rest, query := zzwTail()
+
+	port := func(tag string) string {
+		if verifrt.NondetRange(tag, 0, 1) == 1 {
+			return ":8080"
+		}
+		return ""
+	}
+	// effective host
+	var effName string
+	var sample zzwSample
+	switch branch {
+	case 0:
+		effName = string(zzwSymName("eff", 3, verifrt.Param("W", 4)))
+	case 1:
+		effName = "gw.example.com"
+	case 2:
+		switch verifrt.NondetRange("sample", 0, 2) {
+		case 0:
+			sample = zzwPool[1] // CIDv1 base32
+		case 1:
+			sample = zzwPool[8] // libp2p-key base36
+		case 2:
+			sample = zzwSample{zzwKindDNSLink, "ipns", "en-wikipedia--on--ipfs-org", "en.wikipedia-on-ipfs.org"}
+		}
+		effName = sample.id + "." + sample.ns + ".dweb.link"
+	case 3: // path request on the subdomain gateway
+		effName = "dweb.link"
+	case 4: // path request on a gateway without subdomains
+		effName = "gw.example.com"
+	}
+	const cidID = "bafybeif7a7gdklt6hodwdrmwmxnhksctcuav6lfxlcyfz4khzl3qfmvcgu"
+	reqPath := remainder
+	if branch >= 3 {
+		reqPath = "/ipfs/" + cidID + remainder
+	}
+	effPort := port("effPort")
+	eff := effName + effPort
+	// the other name (used as Host when X-Forwarded-Host overrides it)
+	otherName := ""
+	other := ""
+	if mode == 2 {
+		switch verifrt.NondetRange("otherKind", 0, 2) {
+		case 0:
+			otherName = string(zzwSymName("oth", 3, verifrt.Param("W", 4)))
+			verifrt.Assume(otherName != effName)
+		case 1:
+			otherName = "dweb.link"
+			verifrt.Assume(branch != 3)
+		case 2:
+			otherName = "bafkqaglimvwgy3zakrsxg5cun5jxkyten5wwc2lokvjeycq.ipfs.dweb.link"
+		}
+		other = otherName + port("othPort")
+	}
+	verifrt.Observe("eff", eff)
+	verifrt.Observe("other", other)
+
+	backend := &zzwRecBackend{names: []string{effName}, recs: []bool{recE}}
+	if otherName != "" {
+		backend.names = append(backend.names, otherName)
+		backend.recs = append(backend.recs, recO)
+	}
+	if sample.kind == zzwKindDNSLink {
+		backend.names = append(backend.names, sample.fqdn)
+		backend.recs = append(backend.recs, true)
+	}
+	c := Config{PublicGateways: map[string]*PublicGateway{
+		"dweb.link":      {Paths: []string{"/ipfs", "/ipns"}, UseSubdomains: true},
+		"gw.example.com": {Paths: []string{"/ipfs"}},
+	}}
+	next := &zzwNext{}
+	h := NewHostnameHandler(c, backend, next)
+	w := &zzwRW{h: http.Header{}}
+	var r *http.Request
+	switch mode {
+	case 0:
+		r = zzwRequest(eff, reqPath, query, false)
+	case 1:
+		r = zzwRequest(eff, reqPath, query, false)
+		r.Header.Set("X-Forwarded-Host", eff)
+	case 2:
+		r = zzwRequest(other, reqPath, query, false)
+		r.Header.Set("X-Forwarded-Host", eff)
+	}
+	h(w, r)
+	verifrt.Observe("code", w.code)
+	verifrt.Observe("nextPath", next.path)
+	verifrt.Observe("dnslink", next.dnslink)
+
+	ctxOK := (next.dnslink == eff || next.dnslink == effName) && (next.gwHost == eff || next.gwHost == effName)
+	switch branch {
+	case 0:
+		verifrt.Assert("C32.wildcard-host-request-reaches-handler", next.calls == 1 && w.code == 200 && next.rawQuery == query)
+		if recE {
+			verifrt.Assert("C32.dnslink-host-maps-to-effective-host-name", next.path == "/ipns/"+effName+remainder)
+			verifrt.Assert("C32.dnslink-context-names-effective-host", ctxOK)
+		} else {
+			verifrt.Assert("C32.host-without-record-is-not-rewritten", next.path == remainder && next.dnslink == "")
+		}
+	case 1:
+		if recE {
+			verifrt.Assert("C32.gateway-host-dnslink-reaches-handler", next.calls == 1 && w.code == 200 && next.rawQuery == query)
+			verifrt.Assert("C32.dnslink-host-maps-to-effective-host-name", next.path == "/ipns/"+effName+remainder)
+			verifrt.Assert("C32.dnslink-context-names-effective-host", ctxOK)
+		} else {
+			verifrt.Assert("C32.gateway-host-serves-nothing-outside-paths", next.calls == 0 && w.code == http.StatusNotFound)
+		}
+	case 2:
+		zzwCheckSubdomainOutcome(sample, "dweb.link"+effPort, w, next, rest, query)
+		verifrt.Assert("C32.subdomain-host-has-no-dnslink-context", next.dnslink == "")
+	case 3:
+		loc := headerGetExact(w.h, "Location")
+		verifrt.Observe("location", loc)
+		verifrt.Assert("C32.forwarded-host-path-request-is-redirected", w.code == http.StatusMovedPermanently && next.calls == 0)
+		u, err := url.Parse(loc)
+		verifrt.Assert("C32.location-parses", err == nil)
+		if err == nil {
+			verifrt.Assert("C32.forwarded-host-redirect-target", u.Host == cidID+".ipfs."+eff && u.Path == "/"+rest && u.RawQuery == query)
+		}
+	case 4:
+		verifrt.Assert("C32.path-gateway-passes-request-through", next.calls == 1 && w.code == 200 && next.path == reqPath && next.rawQuery == query)
+		verifrt.Assert("C32.path-gateway-no-dnslink-context", next.dnslink == "" && next.subdomGw == "")
+		verifrt.Assert("C32.path-gateway-context-names-effective-host", next.gwHost == eff || next.gwHost == effName)
+	}
 	verifrt.Reach("end")
 }
